@@ -72,36 +72,6 @@ end
 def Decisive {σ : Type} (tol : α) (O : Oracles σ α) : Prop :=
   ∀ s node pst path hyper n, (decideNode tol O s node pst path hyper n).1 ≠ .indeterminate
 
-/-- the sweep returns a node marked feasible when it is entered with a feasible state -/
-theorem elimNode_state_feasible {σ : Type} (tol : α) (O : Oracles σ α) (n : Nat) (isRoot : Bool) (path : List (Aff α))
-    (st : NState α) (t : PT α) (s : σ) (hst : st.isFeasible = true) :
-    (elimNode tol O n isRoot path st t s).1.val.state.isFeasible = true := by
-  match t with
-  | .node i c ks =>
-    rw [elimNode]
-    generalize elimKids tol O n path c.aff st ks 0 s = r
-    cases hfl : (if r.lastFresh then forwardLabel? r.kids else none) with
-    | none => simp [ITree.val, hst]
-    | some l =>
-      simp only
-      cases isRoot with
-      | true => simp [ITree.val, hst]
-      | false =>
-        simp only [Bool.false_eq_true, if_false]
-        cases hch : r.kids.get? l with
-        | none => simp [ITree.val, hst]
-        | some ch =>
-          simp only
-          have hl : forwardLabel? r.kids = some l := by
-            by_cases hf : r.lastFresh = true
-            · simpa [hf] using hfl
-            · simp [hf] at hfl
-          obtain ⟨a, b, hks, hcase⟩ := forwardLabel_spec _ l hl
-          rw [hks] at hch
-          rcases hcase with ⟨rfl, ha, _⟩ | ⟨rfl, _, hb⟩
-          · simp [IKids.get?] at hch; subst hch; exact ha
-          · simp [IKids.get?] at hch; subst hch; exact hb
-
 theorem PKids.settled_set_none (ks : PKids α) (l : Nat) (h : PKids.Settled ks) : PKids.Settled (ks.set l none) := by
   match ks, l with
   | .nil, _ => simp [IKids.set, PKids.Settled]
@@ -138,11 +108,17 @@ theorem not_indeterminate_cases (st : NState α) (h : st ≠ .indeterminate) :
     st = .infeasible ∨ st.isFeasible = true := by
   cases st <;> simp_all [NState.isFeasible]
 
+theorem isInfeasible_iff' (st : NState α) : st.isInfeasible = true ↔ st = .infeasible := by
+  cases st <;> simp [NState.isInfeasible]
+
 mutual
-/-- with decisive oracles the swept tree is settled (any branching factor, partial trees included) -/
-theorem settled_elimNode {σ : Type} (tol : α) (O : Oracles σ α) (hd : Decisive tol O) (n : Nat) (isRoot : Bool)
+/-- with decisive oracles the swept tree is settled (any branching factor, partial trees included), and it is marked
+    feasible when the sweep is entered with a feasible state (a child forwarded into its place is settled, hence
+    decided, and not marked infeasible) -/
+theorem settled_elimNode' {σ : Type} (tol : α) (O : Oracles σ α) (hd : Decisive tol O) (n : Nat) (isRoot : Bool)
     (path : List (Aff α)) (st : NState α) (t : PT α) (s : σ) :
-    PT.SettledBelow (elimNode tol O n isRoot path st t s).1 := by
+    PT.SettledBelow (elimNode tol O n isRoot path st t s).1 ∧
+      (st.isFeasible = true → (elimNode tol O n isRoot path st t s).1.val.state.isFeasible = true) := by
   match t with
   | .node i c ks =>
     rw [elimNode]
@@ -151,6 +127,7 @@ theorem settled_elimNode {σ : Type} (tol : α) (O : Oracles σ α) (hd : Decisi
     cases hfl : (if r.lastFresh then forwardLabel? r.kids else none) with
     | none =>
       simp only
+      refine ⟨?_, fun hst => by simp [ITree.val, hst]⟩
       unfold PT.SettledBelow
       exact PKids.settled_removeLabels _ _ hk
     | some l =>
@@ -158,12 +135,16 @@ theorem settled_elimNode {σ : Type} (tol : α) (O : Oracles σ α) (hd : Decisi
       cases isRoot with
       | true =>
         simp only [if_true]
+        refine ⟨?_, fun hst => by simp [ITree.val, hst]⟩
         unfold PT.SettledBelow
         exact PKids.settled_set_none _ _ hk
       | false =>
         simp only [Bool.false_eq_true, if_false]
         cases hch : r.kids.get? l with
-        | none => simp only; unfold PT.SettledBelow; exact hk
+        | none =>
+          simp only
+          refine ⟨?_, fun hst => by simp [ITree.val, hst]⟩
+          unfold PT.SettledBelow; exact hk
         | some ch =>
           simp only
           have hl : forwardLabel? r.kids = some l := by
@@ -171,14 +152,14 @@ theorem settled_elimNode {σ : Type} (tol : α) (O : Oracles σ α) (hd : Decisi
             · simpa [hf] using hfl
             · simp [hf] at hfl
           obtain ⟨a, b, hks, hcase⟩ := forwardLabel_spec _ l hl
-          have hfeas : ch.val.state.isFeasible = true := by
+          have hninf : ch.val.state.isInfeasible = false := by
             rw [hks] at hch
             rcases hcase with ⟨rfl, ha, _⟩ | ⟨rfl, _, hb⟩
             · simp [IKids.get?] at hch; subst hch; exact ha
             · simp [IKids.get?] at hch; subst hch; exact hb
-          rcases PKids.settled_get r.kids l ch hk hch with hinf | ⟨_, hb⟩
-          · rw [hinf] at hfeas; simp [NState.isFeasible] at hfeas
-          · exact hb
+          rcases PKids.settled_get r.kids l ch hk hch with hinf | ⟨hf, hb⟩
+          · rw [hinf] at hninf; simp [NState.isInfeasible] at hninf
+          · exact ⟨hb, fun _ => hf⟩
 theorem settled_elimKids {σ : Type} (tol : α) (O : Oracles σ α) (hd : Decisive tol O) (n : Nat)
     (path : List (Aff α)) (paff : Aff α) (pst : NState α) (ks : PKids α) (l : Nat) (s : σ) :
     PKids.Settled (elimKids tol O n path paff pst ks l s).kids := by
@@ -202,21 +183,32 @@ theorem settled_elimKids {σ : Type} (tol : α) (O : Oracles σ α) (hd : Decisi
         exact ⟨Or.inl ((isInfeasible_iff' _).mp hinf), settled_elimKids tol O hd n path paff pst r (l+1) _⟩
       · rename_i hinf
         simp only [PKids.Settled]
-        refine ⟨Or.inr ⟨?_, settled_elimNode tol O hd n false _ _ ch _⟩, settled_elimKids tol O hd n path paff pst r (l+1) _⟩
-        apply elimNode_state_feasible
+        have hsub := settled_elimNode' tol O hd n false (path ++ [halfspace paff l])
+          (decideNode tol O s ch.idx pst path (halfspace paff l) n).1 ch (decideNode tol O s ch.idx pst path (halfspace paff l) n).2
+        refine ⟨Or.inr ⟨hsub.2 ?_, hsub.1⟩, settled_elimKids tol O hd n path paff pst r (l+1) _⟩
         rcases not_indeterminate_cases _ (hd s ch.idx pst path (halfspace paff l) n) with h1 | h1
         · rw [h1] at hinf; simp [NState.isInfeasible] at hinf
         · exact h1
     | feasible =>
       simp only [PKids.Settled]
-      exact ⟨Or.inr ⟨elimNode_state_feasible tol O n false _ _ ch s (by simp [NState.isFeasible]),
-        settled_elimNode tol O hd n false _ _ ch s⟩, settled_elimKids tol O hd n path paff pst r (l+1) _⟩
+      have hsub := settled_elimNode' tol O hd n false (path ++ [halfspace paff l]) .feasible ch s
+      exact ⟨Or.inr ⟨hsub.2 (by simp [NState.isFeasible]), hsub.1⟩, settled_elimKids tol O hd n path paff pst r (l+1) _⟩
     | witness ws =>
       simp only [PKids.Settled]
-      exact ⟨Or.inr ⟨elimNode_state_feasible tol O n false _ _ ch s (by simp [NState.isFeasible]),
-        settled_elimNode tol O hd n false _ _ ch s⟩, settled_elimKids tol O hd n path paff pst r (l+1) _⟩
-theorem isInfeasible_iff' (st : NState α) : st.isInfeasible = true ↔ st = .infeasible := by
-  cases st <;> simp [NState.isInfeasible]
+      have hsub := settled_elimNode' tol O hd n false (path ++ [halfspace paff l]) (.witness ws) ch s
+      exact ⟨Or.inr ⟨hsub.2 (by simp [NState.isFeasible]), hsub.1⟩, settled_elimKids tol O hd n path paff pst r (l+1) _⟩
 end
+
+/-- with decisive oracles the swept tree is settled -/
+theorem settled_elimNode {σ : Type} (tol : α) (O : Oracles σ α) (hd : Decisive tol O) (n : Nat) (isRoot : Bool)
+    (path : List (Aff α)) (st : NState α) (t : PT α) (s : σ) :
+    PT.SettledBelow (elimNode tol O n isRoot path st t s).1 :=
+  (settled_elimNode' tol O hd n isRoot path st t s).1
+
+/-- with decisive oracles the sweep returns a node marked feasible when it is entered with a feasible state -/
+theorem elimNode_state_feasible {σ : Type} (tol : α) (O : Oracles σ α) (hd : Decisive tol O) (n : Nat) (isRoot : Bool)
+    (path : List (Aff α)) (st : NState α) (t : PT α) (s : σ) (hst : st.isFeasible = true) :
+    (elimNode tol O n isRoot path st t s).1.val.state.isFeasible = true :=
+  (settled_elimNode' tol O hd n isRoot path st t s).2 hst
 
 end AV
